@@ -68,6 +68,19 @@ func (filter *DummyAudioFilter) Feed(msg base.RtmpMsg) {
 }
 
 // 初始阶段，分析是否存在音频
+// Dispose must be called when the input ends. A stream that ends while the filter is still analysing it (no audio
+// yet, less than waitAudioMs of video) has all its messages in the early stage queue: they are released as they are.
+func (filter *DummyAudioFilter) Dispose() {
+	if filter.stage != dummyAudioFilterStageAnalysis {
+		return
+	}
+	for i := range filter.earlyStageQueue {
+		filter.onPopProxy(filter.earlyStageQueue[i])
+	}
+	filter.clearCache()
+	filter.stage = dummyAudioFilterStageNormal
+}
+
 func (filter *DummyAudioFilter) handleAnalysisStage(msg base.RtmpMsg) {
 	switch msg.Header.MsgTypeId {
 	case base.RtmpTypeIdMetadata:
